@@ -937,11 +937,23 @@ def r93_r94(ctx, repo):
            texts["features"] + " (inputs lacking one, two adjacent, several "
            "features)" if bad is None else bad, node=f,
            label="join feature intersection")
+    three = {"a": spec(date="2020-01-01", tm="23:59:50"),
+             "b": spec(date="2020-01-02", tm="00:00:05", fr=1000.),
+             "c": spec(date="2020-01-02", tm="09:00:00.5")}
+    # --- offsets belong to their own input, whatever order was given
+    oacc = {}
+    for order in (["c", "a", "b"], ["b", "c", "a"], ["c", "b", "a"],
+                  ["b", "a"], ["a", "c", "b"]):
+        merge(oacc, case(three, order, ["time", "frame", "index_online"]))
+    bad = oacc.get("time") or oacc.get("frame") or oacc.get("index_online")
+    ctx.ob("R9.3", bad is None,
+           "inputs given out of chronological order: the offset of every "
+           "input is computed from its own date / time relative to the "
+           "earliest input" if bad is None else
+           bad + " – an input received the offset of another input",
+           node=f, label="join offsets of inputs given out of order")
     # --- R9.4 order
     oacc = {}
-    three = {"a": spec(date="2020-01-01", tm="23:59:50"),
-             "b": spec(date="2020-01-02", tm="00:00:05"),
-             "c": spec(date="2020-01-02", tm="09:00:00.5")}
     for order in (["c", "a", "b"], ["b", "a", "c"], ["b", "c", "a"],
                   ["a", "b", "c"], ["b", "a"]):
         merge(oacc, case(three, order, ["order", "time", "frame"]))
@@ -959,8 +971,10 @@ def r93_r94(ctx, repo):
     ctx.ob("R9.4", bad is None,
            "start times with and without fractional seconds "
            "('HH:MM:SS[.S]') are ordered chronologically" if bad is None
-           else bad + " – the sort key does not order 'HH:MM:SS' before "
-           "'HH:MM:SS.S' of the same second", node=f,
+           else bad + (" – the sort key does not order 'HH:MM:SS' before "
+                       "'HH:MM:SS.S' of the same second"
+                       if oacc.get("order") or "uint64" in bad else ""),
+           node=f,
            label="join order with fractional seconds")
     oacc = {}
     ties = {"x": spec(), "y": spec(), "z": spec(tm="12:00:03")}
@@ -981,7 +995,7 @@ def run(ctx):
     ctx.rule("R9.2", "split: the exported masks partition the events in "
              "order, ceil(N/S) parts of at most S events", minimum=7)
     ctx.rule("R9.3", "join: common features, continuous time / frame / "
-             "index_online, pass-through, logs of every source", minimum=6)
+             "index_online, pass-through, logs of every source", minimum=7)
     ctx.rule("R9.4", "join: chronological order for any given order, incl. "
              "fractional seconds; ties keep the given order", minimum=3)
     r91(ctx, repo)
@@ -1206,5 +1220,23 @@ TWINS = list(TWINS) + [
        "PART_BASE = 1000\nPART_DEFAULT = 10 * PART_BASE\n\n\ndef split(\n"),
       ("        split_events: int = 10000,",
        "        split_events: int = PART_DEFAULT,")]),
+]
+
+
+MUTANTS = list(MUTANTS) + [
+    ("join: offsets in the given order, consumed in sorted order (seeded)",
+     JOIN,
+     [("    t_offsets = np.zeros(len(sorted_paths), dtype=np.float64)\n"
+       "    for ii, pp in enumerate(sorted_paths):",
+       "    t_offsets = np.zeros(len(paths_in), dtype=np.float64)\n"
+       "    for ii, pp in enumerate(paths_in):"),
+      ("    t_offsets -= t_offsets[0]\n",
+       "    t_offsets -= t_offsets.min()\n")], "R9.3"),
+]
+
+TWINS = list(TWINS) + [
+    ("join: offsets relative to the minimum of the sorted offsets", JOIN,
+     ("    t_offsets -= t_offsets[0]\n",
+      "    t_offsets -= t_offsets.min()\n")),
 ]
 
